@@ -12,11 +12,15 @@
 //!
 //! ```text
 //! C19 s<schedule seed> r<reps> L:<name>:<dir>:<file>;<file>... (one token per layer, layercontents order)
+//!      [V2]  the tree is a UFO 2 (one layer, no layercontents.plist)   [G:<group>=<member>+..;..]  groups.plist
+//!      [K:<first>.<second>=<int>;..]  kerning.plist      [A:<name>:<dir>:<file>;..]  layers of ANOTHER font (UFO 3) that
+//!      both builds load in the same process immediately before every load of the tree (process-wide state)
 //!      [O:<op>;<op>...]   history applied to the loaded font through the public API before the save, in both builds
 //!      file = <key>,<file name>,<name attribute>,<body seed>,<bad>,<base>+<base>...
 //!      op   = ig.<layer>.<name>.<seed> (insert_glyph) | rg.<layer>.<name> (remove_glyph)
 //!           | mg.<layer>.<old>.<new> (rename_glyph, no overwrite) | eo.<layer>.<name>.<seed> (entry(..).or_insert)
-//!  => Qok|Qerr  D:<name>:<dir>:<len>:<glyph>;... [E:... the same after the history]
+//!  => Qok|Qerr  D:<name>:<dir>:<len>:<glyph>;... [DG:<group>=<members>;..] [DK:<first>.<second>=<value bits>;..]
+//!     [E:... the layers after the history]
 //!     S:<dir>:<file name>=<name in file>;...  H<tree hash>
 //!     P<threads>:<reps>:<dumps equal>:<saves>:<listings equal>:<hashes equal> (x4)
 //!     [ X<threads> Xok|Xerr XD:... XS:... XH<hash> ]      first repetition that differs, if any
@@ -142,30 +146,106 @@ fn body_token(g: &Glyph) -> String {
 const PLIST_HEAD: &str = "<?xml version=\"1.0\" encoding=\"UTF-8\"?>\n<!DOCTYPE plist PUBLIC \"-//Apple//DTD PLIST 1.0//EN\" \"http://www.apple.com/DTDs/PropertyList-1.0.dtd\">\n<plist version=\"1.0\">\n";
 
 pub fn write_tree(dir: &Path, layers: &[LayerSpec]) {
+    write_tree_v(dir, layers, 3, "", "")
+}
+
+/// `groups` / `kerning`: the `G:` / `K:` tokens (empty = no file)
+pub fn write_tree_v(dir: &Path, layers: &[LayerSpec], version: u32, groups: &str, kerning: &str) {
     rm_rf(dir);
     std::fs::create_dir_all(dir).unwrap();
     std::fs::write(
         dir.join("metainfo.plist"),
-        format!("{}<dict><key>creator</key><string>verif</string><key>formatVersion</key><integer>3</integer></dict></plist>\n", PLIST_HEAD),
+        format!("{}<dict><key>creator</key><string>verif</string><key>formatVersion</key><integer>{}</integer></dict></plist>\n", PLIST_HEAD, version),
     )
     .unwrap();
+    if let Some(g) = groups.strip_prefix("G:") {
+        let mut t = format!("{}<dict>\n", PLIST_HEAD);
+        for e in g.split(';').filter(|e| !e.is_empty()) {
+            let (k, ms) = e.split_once('=').unwrap();
+            t.push_str(&format!("<key>{}</key><array>", unhexs(k)));
+            for m in ms.split('+').filter(|m| !m.is_empty()) {
+                t.push_str(&format!("<string>{}</string>", unhexs(m)));
+            }
+            t.push_str("</array>\n");
+        }
+        t.push_str("</dict></plist>\n");
+        std::fs::write(dir.join("groups.plist"), t).unwrap();
+    }
+    if let Some(k) = kerning.strip_prefix("K:") {
+        // first -> [(second, value)]
+        let mut firsts: Vec<(String, Vec<(String, String)>)> = Vec::new();
+        for e in k.split(';').filter(|e| !e.is_empty()) {
+            let (pair, v) = e.split_once('=').unwrap();
+            let (a, b) = pair.split_once('.').unwrap();
+            let (a, b) = (unhexs(a), unhexs(b));
+            match firsts.iter_mut().find(|f| f.0 == a) {
+                Some(f) => f.1.push((b, v.to_string())),
+                None => firsts.push((a, vec![(b, v.to_string())])),
+            }
+        }
+        let mut t = format!("{}<dict>\n", PLIST_HEAD);
+        for (a, bs) in firsts {
+            t.push_str(&format!("<key>{}</key><dict>", a));
+            for (b, v) in bs {
+                t.push_str(&format!("<key>{}</key><integer>{}</integer>", b, v));
+            }
+            t.push_str("</dict>\n");
+        }
+        t.push_str("</dict></plist>\n");
+        std::fs::write(dir.join("kerning.plist"), t).unwrap();
+    }
+    if version < 3 {
+        // UFO 1/2: one layer in `glyphs`, no layercontents.plist
+        if let Some(l) = layers.first() {
+            write_layer(dir, l);
+        }
+        return;
+    }
     let mut lc = format!("{}<array>\n", PLIST_HEAD);
     for l in layers {
         lc.push_str(&format!("<array><string>{}</string><string>{}</string></array>\n", l.name, l.dir));
-        let ldir = dir.join(&l.dir);
-        std::fs::create_dir_all(&ldir).unwrap();
-        let mut contents = format!("{}<dict>\n", PLIST_HEAD);
-        for f in &l.files {
-            contents.push_str(&format!("<key>{}</key><string>{}</string>\n", f.key, f.fname));
-            if f.bad != 3 {
-                std::fs::write(ldir.join(&f.fname), glif_text(f)).unwrap();
-            }
-        }
-        contents.push_str("</dict></plist>\n");
-        std::fs::write(ldir.join("contents.plist"), contents).unwrap();
+        write_layer(dir, l);
     }
     lc.push_str("</array></plist>\n");
     std::fs::write(dir.join("layercontents.plist"), lc).unwrap();
+}
+
+fn write_layer(dir: &Path, l: &LayerSpec) {
+    let ldir = dir.join(&l.dir);
+    std::fs::create_dir_all(&ldir).unwrap();
+    let mut contents = format!("{}<dict>\n", PLIST_HEAD);
+    for f in &l.files {
+        contents.push_str(&format!("<key>{}</key><string>{}</string>\n", f.key, f.fname));
+        if f.bad != 3 {
+            std::fs::write(ldir.join(&f.fname), glif_text(f)).unwrap();
+        }
+    }
+    contents.push_str("</dict></plist>\n");
+    std::fs::write(ldir.join("contents.plist"), contents).unwrap();
+}
+
+/// groups and kerning of a loaded font (after the upconversion of UFO 1/2 kerning, which asks the name table
+/// whether a kerning key is a glyph name)
+pub fn dump_gk(font: &Font) -> String {
+    let mut toks = Vec::new();
+    if !font.groups.is_empty() {
+        let gs: Vec<String> = font
+            .groups
+            .iter()
+            .map(|(k, ms)| format!("{}={}", hexs(k.as_str()), ms.iter().map(|m| hexs(m.as_str())).collect::<Vec<_>>().join("+")))
+            .collect();
+        toks.push(format!("DG:{}", gs.join(";")));
+    }
+    if !font.kerning.is_empty() {
+        let mut ks = Vec::new();
+        for (a, bs) in font.kerning.iter() {
+            for (b, v) in bs.iter() {
+                ks.push(format!("{}.{}={}", hexs(a.as_str()), hexs(b.as_str()), f64bits(*v)));
+            }
+        }
+        toks.push(format!("DK:{}", ks.join(";")));
+    }
+    toks.join(" ")
 }
 
 // ------------------------------------------------------------------ observation (both builds)
@@ -280,11 +360,27 @@ pub fn apply_ops(font: &mut Font, ops: &str, layers: &[String]) {
 }
 
 /// one load (+ history) (+ save): (status+dumps, listing, hash).  Save is skipped when `save` is false.
-pub fn load_dump_save(tree: &Path, out: &Path, save: bool, ops: &str, layers: &[String]) -> (String, String, String) {
+pub fn load_dump_save(
+    tree: &Path,
+    out: &Path,
+    save: bool,
+    ops: &str,
+    layers: &[String],
+    pre: Option<&Path>,
+) -> (String, String, String) {
+    if let Some(p) = pre {
+        // another font, loaded (and dropped) in the same process first
+        let _ = guarded(|| Font::load(p).map(|f| f.layers.len()));
+    }
     let loaded = guarded(|| Font::load(tree));
     match loaded {
         Ok(Ok(mut font)) => {
             let mut d = format!("Qok {}", dump_font(&font));
+            let gk = dump_gk(&font);
+            if !gk.is_empty() {
+                d.push(' ');
+                d.push_str(&gk);
+            }
             if !ops.is_empty() {
                 if guarded(|| apply_ops(&mut font, ops, layers)).is_err() {
                     d.push_str(" E-panic");
@@ -322,10 +418,11 @@ pub fn worker(args: &[String], out: &mut dyn Write) {
     let (ed, es, eh) = (&args[4], &args[5], &args[6]);
     let ops = args.get(7).cloned().unwrap_or_default();
     let layers: Vec<String> = args.get(8).map(|a| a.split(',').filter(|t| !t.is_empty()).map(unhexs).collect()).unwrap_or_default();
+    let pre: Option<PathBuf> = args.get(9).filter(|a| a.as_str() != "-").map(PathBuf::from);
     let mut reported = false;
     for rep in 0..reps {
         let save = save_every > 0 && rep % save_every == 0;
-        let (d, s, h) = load_dump_save(&tree, &outdir, save, &ops, &layers);
+        let (d, s, h) = load_dump_save(&tree, &outdir, save, &ops, &layers, pre.as_deref());
         let fd = format!("{:016x}", fnv(d.as_bytes())) == *ed;
         let fs_ = !save || format!("{:016x}", fnv(s.as_bytes())) == *es;
         let fh = !save || h == *eh;
@@ -422,12 +519,24 @@ pub fn observe(toks: &[&str], scratch: &Path, min_reps: usize) -> String {
     let layers: Vec<LayerSpec> = toks.iter().filter(|t| t.starts_with("L:")).map(|t| parse_layer(t)).collect();
     let tree = scratch.join("tree.ufo");
     let out = scratch.join("out.ufo");
-    write_tree(&tree, &layers);
+    let version = if toks.contains(&"V2") { 2 } else { 3 };
+    let groups = toks.iter().find(|t| t.starts_with("G:")).copied().unwrap_or("");
+    let kerning = toks.iter().find(|t| t.starts_with("K:")).copied().unwrap_or("");
+    write_tree_v(&tree, &layers, version, groups, kerning);
+    let pre_layers: Vec<LayerSpec> =
+        toks.iter().filter(|t| t.starts_with("A:")).map(|t| parse_layer(t)).collect();
+    let pre: Option<PathBuf> = if pre_layers.is_empty() {
+        None
+    } else {
+        let p = scratch.join("pre.ufo");
+        write_tree(&p, &pre_layers);
+        Some(p)
+    };
     let nfiles: usize = layers.iter().map(|l| l.files.len()).sum();
     let ops: String = toks.iter().find(|t| t.starts_with("O:")).map(|t| t.to_string()).unwrap_or_default();
     let lnames: Vec<String> = layers.iter().map(|l| l.name.clone()).collect();
     let lnames_arg: String = lnames.iter().map(|n| hexs(n)).collect::<Vec<_>>().join(",");
-    let (d, s, h) = load_dump_save(&tree, &out, true, &ops, &lnames);
+    let (d, s, h) = load_dump_save(&tree, &out, true, &ops, &lnames, pre.as_deref());
     rm_rf(&out);
     let mut obs = vec![d.clone(), s.clone(), h.clone()];
     let (ed, es) = (format!("{:016x}", fnv(d.as_bytes())), format!("{:016x}", fnv(s.as_bytes())));
@@ -450,6 +559,7 @@ pub fn observe(toks: &[&str], scratch: &Path, min_reps: usize) -> String {
                     .arg(&h)
                     .arg(&ops)
                     .arg(&lnames_arg)
+                    .arg(pre.as_ref().map(|p| p.to_string_lossy().to_string()).unwrap_or_else(|| "-".to_string()))
                     .env("RAYON_NUM_THREADS", k.to_string())
                     .output();
                 let text = match r {
@@ -501,6 +611,9 @@ pub fn observe(toks: &[&str], scratch: &Path, min_reps: usize) -> String {
         obs.push(x);
     }
     rm_rf(&tree);
+    if let Some(p) = &pre {
+        rm_rf(p);
+    }
     obs.iter().filter(|t| !t.is_empty()).cloned().collect::<Vec<_>>().join(" ")
 }
 
@@ -592,7 +705,7 @@ pub fn gen_tree(rng: &mut Rng, sh: &Shape) -> Vec<LayerSpec> {
         let (lname, dir) = if li == 0 {
             (if rng.chance(1, 3) { "foreground".to_string() } else { lnames[0].to_string() }, "glyphs".to_string())
         } else {
-            (lnames[li % lnames.len()].to_string(), format!("glyphs.l{}", li))
+            (if li < lnames.len() { lnames[li].to_string() } else { format!("layer {}", li) }, format!("glyphs.l{}", li))
         };
         let mut keys: Vec<String> = if li == 0 {
             names.clone()
@@ -743,9 +856,137 @@ pub fn gen_ops(rng: &mut Rng, layers: &[LayerSpec], n: usize) -> String {
     format!("O:{}", ops.join(";"))
 }
 
+/// another font for the same process: glyphs named like things the main font only mentions (dangling component
+/// bases, `extra` = e.g. its group names), like some of its glyphs, and near misses
+pub fn gen_prelude(rng: &mut Rng, main: &[LayerSpec], extra: &[String]) -> Vec<LayerSpec> {
+    let mut keys: Vec<String> = extra.to_vec();
+    let main_keys: Vec<&String> = main.iter().flat_map(|l| l.files.iter().map(|f| &f.key)).collect();
+    let main_comps: Vec<&String> = main.iter().flat_map(|l| l.files.iter().flat_map(|f| f.comps.iter())).collect();
+    for c in main_comps.iter().take(400) {
+        if !main_keys.contains(c) || rng.chance(1, 8) {
+            keys.push((*c).clone());
+        }
+    }
+    for _ in 0..(3 + rng.below(10)) {
+        if !main_keys.is_empty() {
+            let k = (*rng.pick(&main_keys)).clone();
+            keys.push(if rng.chance(1, 2) { k } else { variant(rng, &k) });
+        }
+    }
+    keys.retain(|k| !k.is_empty());
+    keys.sort();
+    keys.dedup();
+    let files: Vec<FileSpec> = keys
+        .iter()
+        .enumerate()
+        .map(|(i, k)| FileSpec {
+            key: k.clone(),
+            fname: format!("p{:04}_.glif", i),
+            attr: k.clone(),
+            seed: rng.below(1_000_000) as u64,
+            bad: 0,
+            comps: (0..rng.below(3)).filter_map(|_| if main_keys.is_empty() { None } else { Some((*rng.pick(&main_keys)).clone()) }).collect(),
+        })
+        .collect();
+    vec![LayerSpec { name: "public.default".to_string(), dir: "glyphs".to_string(), files }]
+}
+
+/// a UFO 2 with unprefixed kerning groups: (layers, G token, K token, names for the other font)
+pub fn gen_v2(rng: &mut Rng) -> (Vec<LayerSpec>, String, String, Vec<String>) {
+    let sh = Shape { glyphs: 8 + rng.below(50), layers: 1, bad: false, dup: false, coll: 0, uneven: false, default_pos: 0, ops: 0 };
+    let mut layers = gen_tree(rng, &sh);
+    layers[0].name = "public.default".to_string();
+    let keys: Vec<String> = layers[0].files.iter().map(|f| f.key.clone()).collect();
+    let dangling: Vec<String> =
+        layers[0].files.iter().flat_map(|f| f.comps.iter()).filter(|c| !keys.contains(c)).cloned().collect();
+    let attrs: Vec<String> = layers[0].files.iter().map(|f| f.attr.clone()).filter(|a| !keys.contains(a)).collect();
+    // names that are glyphs of the OTHER font only
+    let other: Vec<String> = ["O.round", "H.left", "grpA", "kernX", "o.round", "n.right", "T.top"].iter().map(|s| s.to_string()).collect();
+    let mut cands1: Vec<String> = vec![other[0].clone(), other[1].clone(), other[2].clone(), "@MMK_L_a".to_string(), "left1".to_string()];
+    let mut cands2: Vec<String> = vec![other[3].clone(), other[4].clone(), other[5].clone(), "@MMK_R_b".to_string(), "right1".to_string()];
+    if let Some(d) = dangling.first() {
+        cands1.push(d.clone());
+    }
+    if let Some(d) = dangling.last() {
+        cands2.push(d.clone());
+    }
+    if let Some(a) = attrs.first() {
+        cands1.push(a.clone());
+    }
+    cands1.push(keys[rng.below(keys.len())].clone()); // a group named like one of its own glyphs: never upconverted
+    cands2.retain(|c| !cands1.contains(c));
+    let mut pick = |rng: &mut Rng, c: &Vec<String>| -> Vec<String> {
+        let mut v: Vec<String> = c.iter().filter(|_| rng.chance(2, 3)).cloned().collect();
+        if v.is_empty() {
+            v.push(c[0].clone());
+        }
+        v.sort();
+        v.dedup();
+        v
+    };
+    let g1 = pick(rng, &cands1);
+    let g2 = pick(rng, &cands2);
+    let mut groups: Vec<(String, Vec<String>)> = Vec::new();
+    for side in [&g1, &g2] {
+        let mut ks = keys.clone();
+        for k in (1..ks.len()).rev() {
+            ks.swap(k, rng.below(k + 1));
+        }
+        let mut it = ks.into_iter();
+        for g in side.iter() {
+            let n = 1 + rng.below(3);
+            let ms: Vec<String> = (0..n).filter_map(|_| it.next()).collect();
+            groups.push((g.clone(), ms));
+        }
+    }
+    let gtok = format!(
+        "G:{}",
+        groups.iter().map(|(g, ms)| format!("{}={}", hexs(g), ms.iter().map(|m| hexs(m)).collect::<Vec<_>>().join("+"))).collect::<Vec<_>>().join(";")
+    );
+    let mut firsts = g1.clone();
+    firsts.push(keys[rng.below(keys.len())].clone());
+    let mut seconds = g2.clone();
+    seconds.push(keys[rng.below(keys.len())].clone());
+    firsts.sort();
+    firsts.dedup();
+    seconds.sort();
+    seconds.dedup();
+    let mut pairs = Vec::new();
+    for a in &firsts {
+        for b in &seconds {
+            if rng.chance(2, 3) {
+                pairs.push(format!("{}.{}={}", hexs(a), hexs(b), rng.range(-200, 200)));
+            }
+        }
+    }
+    if pairs.is_empty() {
+        pairs.push(format!("{}.{}=-10", hexs(&firsts[0]), hexs(&seconds[0])));
+    }
+    let mut extra = other;
+    extra.extend(g1.iter().cloned());
+    extra.extend(g2.iter().cloned());
+    extra.retain(|e| !e.starts_with('@'));
+    (layers, gtok, format!("K:{}", pairs.join(";")), extra)
+}
+
 fn emit(out: &mut dyn Write, scratch: &Path, sseed: u64, reps: usize, layers: &[LayerSpec], ops: &str) {
+    emit_x(out, scratch, sseed, reps, layers, ops, &[], &[])
+}
+
+fn emit_x(
+    out: &mut dyn Write,
+    scratch: &Path,
+    sseed: u64,
+    reps: usize,
+    layers: &[LayerSpec],
+    ops: &str,
+    extra: &[String],
+    pre: &[LayerSpec],
+) {
     let mut input = vec!["C19".to_string(), format!("s{}", sseed), format!("r{}", reps)];
+    input.extend(extra.iter().cloned());
     input.extend(layers.iter().map(layer_tok));
+    input.extend(pre.iter().map(|l| layer_tok(l).replacen("L:", "A:", 1)));
     if !ops.is_empty() {
         input.push(ops.to_string());
     }
@@ -786,7 +1027,26 @@ pub fn gen(tier: &str, seed: u64, out: &mut dyn Write) {
         };
         let layers = gen_tree(&mut rng, &sh);
         let ops = gen_ops(&mut rng, &layers, sh.ops);
-        emit(out, &scratch, rng.next() % 1_000_000, reps, &layers, &ops);
+        // every 4th tree: another font is loaded in the same process before every load
+        let pre = if t % 4 == 3 { gen_prelude(&mut rng, &layers, &[]) } else { Vec::new() };
+        emit_x(out, &scratch, rng.next() % 1_000_000, reps, &layers, &ops, &[], &pre);
+    }
+    // more layers than the small-sort threshold of the standard library (32), default layer second / middle / last
+    for (i, n) in [33usize, 41, 49, 70].iter().enumerate() {
+        let pos = match i % 3 {
+            0 => n - 1,
+            1 => n / 2,
+            _ => 1,
+        };
+        let sh = Shape { glyphs: 3 + rng.below(10), layers: *n, bad: false, dup: false, coll: 0, uneven: true, default_pos: pos, ops: 0 };
+        let layers = gen_tree(&mut rng, &sh);
+        emit(out, &scratch, rng.next() % 1_000_000, reps, &layers, "");
+    }
+    // UFO 2 with unprefixed kerning groups, after a font whose glyphs are named like those groups
+    for i in 0..4 {
+        let (layers, g, k, extra) = gen_v2(&mut rng);
+        let pre = if i == 3 { Vec::new() } else { gen_prelude(&mut rng, &layers, &extra) };
+        emit_x(out, &scratch, rng.next() % 1_000_000, reps, &layers, "", &["V2".to_string(), g, k], &pre);
     }
     rm_rf(&scratch);
 }
